@@ -92,7 +92,11 @@ func GenOpsBig(t *rapid.T, kind string, n int) []Op {
 		part := rapid.SliceOfN(rapid.Custom(func(t *rapid.T) Op {
 			switch dom.Weighted(t, "op", 25, 25, 20, 28, 2, 4) {
 			case 5:
-				return Op{O: "load", Xs: rapid.SliceOfN(rapid.IntRange(0, n-1), 0, 150).Draw(t, "doc")}
+				o := "load"
+				if rapid.IntRange(0, 3).Draw(t, "spoiled") == 2 {
+					o = "badload"
+				}
+				return Op{O: o, Xs: rapid.SliceOfN(rapid.IntRange(0, n-1), 0, 150).Draw(t, "doc")}
 			case 0:
 				return Op{O: "add", X: rapid.IntRange(0, n-1).Draw(t, "x")}
 			case 1:
@@ -147,9 +151,32 @@ func Apply[E cmp.Ordered](h *all.H[E], d Domain[E], op Op) {
 		if err := h.FromJSON(LoadDoc(h.Cfg.Kind, d, op.Xs)); err != nil {
 			panic("script: load of a well-formed document failed: " + err.Error())
 		}
+	case "badload":
+		// a well-formed document whose LAST element / member value has the wrong type: the
+		// load must be rejected, and (C12) nothing may have changed — the model does not move
+		if doc := BadLoadDoc(h.Cfg.Kind, d, op.Xs); h.FromJSON(doc) == nil {
+			panic("script: FromJSON accepted a document with a mistyped element: " + string(doc))
+		}
 	default:
 		panic("script: bad op " + op.O)
 	}
+}
+
+// BadLoadDoc is LoadDoc with one more element (member) whose value is an object.
+func BadLoadDoc[E cmp.Ordered](kind string, d Domain[E], xs []int) []byte {
+	doc := LoadDoc(kind, d, xs)
+	sep := ","
+	if len(doc) <= 2 {
+		sep = ""
+	}
+	if all.KeyValue(kind) {
+		member, err := json.Marshal(map[E]json.RawMessage{d.At(0): json.RawMessage(`{"x":[]}`)})
+		if err != nil {
+			panic(err)
+		}
+		return []byte(string(doc[:len(doc)-1]) + sep + string(member[1:len(member)-1]) + "}")
+	}
+	return []byte(string(doc[:len(doc)-1]) + sep + `{"x":[]}]`)
 }
 
 // LoadDoc builds the JSON document of a "load" op.
@@ -292,6 +319,8 @@ func (m *Model[E]) Apply(d Domain[E], op Op) {
 		}
 	case "clear":
 		m.Seq, m.Map, m.Order, m.Enqueued = nil, map[E]E{}, nil, 0
+	case "badload":
+		// rejected: nothing changes
 	case "load":
 		m.Seq, m.Map, m.Order, m.Enqueued = nil, map[E]E{}, nil, 0
 		switch fam {
@@ -373,7 +402,11 @@ func GenOps(t *rapid.T, kind string, n, maxN int) []Op {
 		case 0:
 		case 6:
 			if !noLoad(kind, n) {
-				ops = append(ops, Op{O: "load", Xs: rapid.SliceOfN(rapid.IntRange(0, n-1), 0, 9).Draw(t, "doc")})
+				o := "load"
+				if rapid.IntRange(0, 3).Draw(t, "spoiled") == 2 {
+					o = "badload"
+				}
+				ops = append(ops, Op{O: o, Xs: rapid.SliceOfN(rapid.IntRange(0, n-1), 0, 9).Draw(t, "doc")})
 			}
 		case 1:
 			ops = append(ops, Op{O: "add", X: rapid.IntRange(0, n-1).Draw(t, "x")})
